@@ -1,0 +1,15 @@
+//go:build verif
+// +build verif
+
+// Package c09 re-exports what the C09 harness needs from internal packages.
+package c09
+
+import (
+	"gopkg.in/src-d/hercules.v10/internal/core"
+)
+
+// SetPlanPrinter is core.VerifC09SetPlanPrinter.
+var SetPlanPrinter = core.VerifC09SetPlanPrinter
+
+// ConfigPipelineDumpPlan is the facts key that makes Run print its plan.
+const ConfigPipelineDumpPlan = core.ConfigPipelineDumpPlan
